@@ -17,6 +17,22 @@ from props.engine_common import plain
 
 ATOM_TEXT = {'txt': 'ALFA', 'quote': '"', 'backslash': '\\', 'endscript': '</script>', 'css_ph': '/* CSS_PLACEHOLDER */',
              'data_ph': '/* DATA_PLACEHOLDER */', 'js_ph': '/* JS_PLACEHOLDER */', 'nonascii': 'Zürich ✓ 東京'}
+_KNOWN_PH = {'/* CSS_PLACEHOLDER */', '/* DATA_PLACEHOLDER */', '/* JS_PLACEHOLDER */'}
+
+
+def harvest_placeholders():
+    """The placeholder tokens the assembly actually knows: every /* NAME */ token of the HTML template and of report.py."""
+    import glob as _glob
+    src = core.repo_src()
+    toks = set()
+    for f in [os.path.join(src, 'tally', 'report.py')] + _glob.glob(os.path.join(src, 'tally', '*.html')):
+        try:
+            toks.update(re.findall(r'/\*\s*[A-Z][A-Z0-9_]*\s*\*/', open(f, encoding='utf-8').read()))
+        except OSError:
+            pass
+    return sorted(toks - _KNOWN_PH)
+
+
 NAME_TEXT = {'w1': 'Alfa', 'w2': 'Beta', 'space': ' ', 'underscore': '_', 'squote': "'", 'dquote': '"', 'd2': '2'}
 VIEWS = '[Everything]\nfilter: true\n\n[Big Ones]\ndescription: totals over ten\nfilter: total > 10\n'
 
@@ -64,7 +80,9 @@ END_TAGS = ['</script>', '</SCRIPT>', '</ScRiPt>', '</script >', '</SCRIPT\t>']
 
 def build_txns(data_atoms, names, rnd, variant):
     end = END_TAGS[variant % len(END_TAGS)]
-    desc = ' '.join(end if a == 'endscript' else ATOM_TEXT[a] for a in data_atoms) or 'PLAIN'
+    extra = harvest_placeholders()
+    xph = ' '.join(extra) if extra else 'XPH'         # no further placeholder in this template: the atom is plain text
+    desc = ' '.join(end if a == 'endscript' else xph if a == 'x_ph' else ATOM_TEXT[a] for a in data_atoms) or 'PLAIN'
     n1 = ''.join(NAME_TEXT[a] for a in names[0])
     n2 = ''.join(NAME_TEXT[a] for a in names[1])
     d = datetime.datetime
@@ -255,6 +273,8 @@ def run(ck):
     ck.expect_model_violation('Report/pinned-assembly', tlc.run('Report', 'MC_Report_neg1.cfg'), 'Inv_RoundTrip')
     ck.expect_model_violation('Report/pinned-ids', tlc.run('Report', 'MC_Report_neg2.cfg'), 'Inv_EachMerchantOnce')
     ck.expect_model_violation('Report/counter-ids', tlc.run('Report', 'MC_Report_neg3.cfg'), 'Inv_EachMerchantOnce')
+    ck.expect_model_violation('Report/late-placeholder', tlc.run('Report', 'MC_Report_neg4.cfg'), 'Inv_RoundTrip')
+    ck.extra['further_placeholders_in_template'] = harvest_placeholders()
     tmp = tempfile.mkdtemp(prefix='c12_')
     try:
         dump = os.path.join(tmp, 'r.dump')
@@ -272,7 +292,7 @@ def run(ck):
             ck.violation(sig, case, what)
         if sample:
             ck.sample(sample, cap=3)
-    ck.extra['rule'] = ('every description built from <= 3 of 8 text atoms (plain, quote, backslash, </script>, the three template placeholders, '
+    ck.extra['rule'] = ('every description built from <= 3 of 8 text atoms (plain, quote, backslash, </script>, the three template placeholders and any further one found in the template, '
                         'non-ASCII) x every ordered pair (and, for short descriptions, triple) of 10 merchant-name shapes (differing in blanks, underscores, quotes, a trailing _2), with and without '
                         'views, mixed-sign / income / transfer / investment / refund transactions; all four formats at every verbosity'
                         + (' (1 in 6 states replayed in the quick tier)' if quick else ''))
